@@ -1,7 +1,7 @@
 (* C19 - the client reports exactly what the server answered.
    Model: theories/Client/Client.v (KMIPProxy + ProxyKmipClient result handling), Framing.v (KMIPProtocol.read).
    Tie K: harness/c19.py (scripted responder and real server stack; Coq compares, ClientCases.check_ccase). *)
-From PK Require Import Base.Bytes Client.Client Client.Framing Client.ClientProofs Client.FramingProofs.
+From PK Require Import Base.Bytes Client.Client Client.Framing Client.EndToEnd Client.ClientProofs Client.FramingProofs.
 From Coq Require Import ZArith List Bool.
 Import ListNotations.
 Open Scope Z_scope.
